@@ -104,8 +104,24 @@ theorem mapPrefix_closed (f : UInt8 → UInt8) (l : Nat) (p : Bytes) :
 theorem convert7bit_closed (l : Nat) (p : Bytes) : convert7bit l p = Spec.shl1 l p := by
   rw [convert7bit_eq, mapPrefix_closed]; rfl
 
+/-- the regenerated C table is the published VIDC law -/
+theorem vdicTable_law : vdicTable = Spec.vidcLaw := by decide +kernel
+
+theorem vidcByte_eq (x : UInt8) : vidcByte x = Spec.vidcLin x := by
+  have h : ∀ n, n < 256 → vidcByte (UInt8.ofNat n) = Spec.vidcLin (UInt8.ofNat n) := by
+    rw [show vidcByte = fun (x : UInt8) => (let amp : Int := Spec.vidcLaw.getD (x >>> 1).toNat 0
+          UInt8.ofNat ((if x &&& 1 != 0 then -amp else amp) % 256).toNat) from by
+      funext x; simp only [vidcByte, vdicTable_law]]
+    decide +kernel
+  have := h x.toNat (UInt8.toNat_lt x)
+  rwa [UInt8.ofNat_toNat] at this
+
 theorem convertVidc_closed (l : Nat) (p : Bytes) : convertVidc l p = Spec.vidc l p := by
-  rw [convertVidc_eq, mapPrefix_closed]; rfl
+  rw [convertVidc_eq, mapPrefix_closed]
+  unfold Spec.vidc
+  apply build_congr
+  intro i _
+  simp only [vidcByte_eq]
 
 theorem add80_eq_xor (x : UInt8) : x + 0x80 = x ^^^ 0x80 := by
   have h : ∀ n, n < 256 → UInt8.ofNat n + 0x80 = UInt8.ofNat n ^^^ 0x80 := by decide +kernel
